@@ -101,4 +101,14 @@ PROPS = {
         'explanation': 'range invariants and field-wise frame conditions proved for every message of hub and dispatcher; matrix: all 2^6 x 5 UpdateParams, 2^7 hub UpdateConfig, 2^6 x 5 dispatcher UpdateConfig, '
                        '2^3 reward UpdateConfig patterns with in-range, boundary and out-of-range values, and instantiate messages over the same value classes',
     },
+    'C16': {
+        'families': [gen('token', 30, 120), gen('mixed', 20, 120), gen('rewards', 10, 120)],
+        'slice': [r'tok\..*', r'reward\.inc', r'reward\.dec', r'hub\.bond', r'inst\.bsei', r'inst\.reward'],
+        'explanation': 'mirror invariant through the message queue proved for every bSei message and every mirror message; Balance/TokenInfo vs Holder/State compared for the whole cast after every operation of token histories by holders, spenders and the hub',
+    },
+    'C02': {
+        'families': [gen('registry', 25, 120), gen('mixed', 20, 120), gen('pricing', 20, 120), gen('release', 10, 120)],
+        'slice': PRICING_KINDS + [r'hub\.ugi', r'env\.slash', r'reg\..*'],
+        'explanation': 'delegate messages sum to the payment and target registered validators (via C12), books <= delegations after every check, undelegation exact; stored pool totals vs chain delegations and hub bank balance compared after every hub transaction, registry changing mid-history',
+    },
 }
